@@ -72,7 +72,7 @@ func init() {
 			}
 			return true
 		})
-		c.Floor("allow-list consultations in the alive handler", nip, 2)
+		c.Floor("allow-list consultations in the alive handler", nip, 1) // one consultation may guard both the insert and the re-address path
 		c.Check("C18/alive/checks-claimed-addr", "the allow-list is consulted for the claimed address itself", a.fn.Decl.Pos(), true, "")
 
 		// 3. the packet handler for alive messages filters source and inner address
